@@ -797,6 +797,51 @@ def case_v_on_time(rng):
     return Case(src, "v_on_time", check, nontrivial=(n >= 2))
 
 
+def case_v_time_then_list(rng):
+    """a v.onNote / v.onCycle list given WHILE a v.onTime ramp is running replaces it (a later reservation replaces the earlier
+    one): the list's notes take the list values and, when an onNote list is used up inside the ramp's window, the following notes
+    take the track velocity (the one before, or the last applied one) - not the ramp's value for their tick"""
+    while True:
+        lo, hi = rng.randint(1, 127), rng.randint(1, 127)
+        ln = rng.choice([384, 768, 960, 1152])
+        k1 = rng.randint(0, 2)
+        cyc = rng.random() < 0.3
+        vs = distinct_list(rng, rng.choice([1, 2, 3]), 1, 127)
+        k2 = len(vs) + rng.randint(1, 4)
+        if (k1 + k2) * TB > ln + 2 * TB:
+            continue
+        # the ramp value at every later tick must be told apart from both accepted track values
+        ok = True
+        for i in range(k1 + len(vs), k1 + k2):
+            if i * TB < ln and min(abs(exact(lo, hi, i * TB, ln) - V0), abs(exact(lo, hi, i * TB, ln) - vs[-1])) < 3:
+                ok = False
+        if ok:
+            break
+    n1, _ = gen_notes(rng, k1)
+    n2, _ = gen_notes(rng, k2)
+    src = track_prefix(rng) + "v.%s(%d,%d,%d) %s v.%s(%s) %s" % (rng.choice(["onTime", "T"]), lo, hi, ln, n1,
+                                                               (rng.choice(["onCycle", "C"]) if cyc else rng.choice(["onNote", "N"])), ",".join(map(str, vs)), n2)
+
+    def check(dec):
+        tr = note_track(dec)
+        if tr is None:
+            return [("notes are not on exactly one track", "", "")]
+        ns = notes_of(tr)
+        if len(ns) != k1 + k2:
+            return [("number of notes", len(ns), k1 + k2)]
+        vels = [n[2] for n in ns][k1:]
+        if cyc:
+            want = [vs[i % len(vs)] for i in range(k2)]
+            return [] if vels == want else [("velocities under v.onCycle given inside a v.onTime window", vels, want)]
+        if vels[:len(vs)] != vs:
+            return [("velocities of the notes of a v.onNote list given inside a v.onTime window", vels[:len(vs)], vs)]
+        if not tail_ok(vels[len(vs):], vs[-1], V0):
+            return [("velocities after a v.onNote list given inside a v.onTime window was used up (the list replaced the ramp)", vels[len(vs):],
+                     "all %d or all %d" % (vs[-1], V0))]
+        return []
+    return Case(src, "v_time_then_list", check)
+
+
 def case_random(rng):
     w = rng.choice("vqto")
     r = rng.choice([1, 2, 3, 5, 10, 20, 40]) if w != "o" else rng.choice([1, 2, 3, 4])
@@ -841,7 +886,7 @@ def case_random(rng):
 
 
 GENS = [(case_on_note, 30), (case_sequence, 25), (case_cc_sequence, 6), (case_cancel, 10), (case_other_track, 4), (case_cc_on_note, 10), (case_cc_on_time, 12),
-        (case_pb_on_time, 10), (case_v_on_time, 10), (case_random, 12)]
+        (case_pb_on_time, 10), (case_v_on_time, 10), (case_v_time_then_list, 6), (case_random, 12)]
 
 FIXED = [  # the sources named in the property's description, with explicit expectations
     {"src": "v.onNote(10,20,30) cdefg", "vel": [10, 20, 30, 30, 30]},
